@@ -122,6 +122,22 @@ for t1, t2 in itertools.product(SDTYPES, repeat=2):
     except Exception as ex_:      # noqa
         bad.append("spectral densities %s + %s: raised %s: %s" % (t1, t2, type(ex_).__name__, str(ex_)[:100]))
 
+# ---- reorganisation energy recovered from the data of a spectral density equals the declared one, in whatever units are current -------
+tl = TimeAxis(0.0, 4096, 1.0)
+for p_ in (dict(ftype="OverdampedBrownian", reorg=30.0, cortime=80.0, T=300.0),
+           dict(ftype="UnderdampedBrownian", reorg=20.0, freq=200.0, gamma=30.0, T=300.0)):
+    try:
+        with qr.energy_units("1/cm"):
+            sd_ = qr.SpectralDensity(tl, p_)
+        for units in ("int", "1/cm", "eV"):
+            with qr.energy_units(units):
+                dec_, mea_ = sd_.get_reorganization_energy(), sd_.measure_reorganization_energy()
+            if abs(mea_ - dec_) > 1e-2 * abs(dec_):
+                bad.append("spectral density %s inside energy_units(%r): reorganisation energy recovered from the data %.6g, declared %.6g"
+                           % (p_["ftype"], units, mea_, dec_))
+    except Exception as ex_:      # noqa
+        bad.append("spectral density %s: measuring the reorganisation energy raised %s: %s" % (p_["ftype"], type(ex_).__name__, str(ex_)[:100]))
+
 for b in bad[:12]:
     print("VIOLATED:", b)
 print("C09 oracle: %d violations" % len(bad))
